@@ -123,6 +123,15 @@ package server
 //@   modifies defaultServers.m.dom, defaultServers.m.vals, server::locations, server::cache, server::compress, server::compressMinLength, server::compressContentTypeFilter, server::listening, server::listenAddr, server::ln, server::e
 //@   ensures [exact] forall k any :: typeis(k, "string") ==> (defaultServers.m.dom[k] <==> (exists i int :: 0 <= i && i < len(configs) && configs[i].Addr == unbox(k, "string")))
 
+// Start: a server counts as listening only once the listener exists - a failed attempt leaves it
+// not listening, so that the next reload tries again (what a fresh start would do)
+//@ func (s *server) Start(useGoRoutine bool) (err error)
+//@   requires [recv] s != nil && s.mutex != nil
+//@   requires [unlocked] !anyheld(s.mutex)
+//@   modifies heap
+//@   atunlock [already] at(lock0, s.listening) ==> s.listening
+//@   ensures_local [listening-needs-listener] !at(lock0, s.listening) && err != nil && useGoRoutine ==> !at(lastunlock, s.listening)
+
 // ---- which responses may be stored (proxy.go) ------------------------------------------
 
 //@ axiom [server-regexps]: noCacheReg != nil && sMaxAgeReg != nil && maxAgeReg != nil && numSubexp(sMaxAgeReg) == 1 && numSubexp(maxAgeReg) == 1
